@@ -123,6 +123,15 @@ def bc(a, b):
     return [(a[i % len(a)], b[i % len(b)]) for i in range(n)]
 
 
+def rem_identity_bad(xv, yv, rv_):
+    """dividend xv, divisor yv > 0, remainder rv_ (exact rationals): xv = k*yv + rv_ for an integer k to 2^-52, 0 <= rv_ < yv"""
+    tol = Fraction(1, 2**52)
+    if abs(xv) > 2**52 or yv <= 0:
+        return False
+    k = round((xv - rv_) / yv)
+    return abs(xv - rv_ - k * yv) > tol or rv_ < -tol or rv_ >= yv + tol
+
+
 def conc_tol(v, tag=""):
     """tolerance of CONCRETE runs (replays and witness validation on the real float code): the property's 2^-52 cycles absolute
     for results up to 2^52 (the operands are the exact rationals of the floats used, so this is the accuracy claim itself, on the
@@ -284,6 +293,14 @@ class Arith(Unit):
             if op in ("mod", "divmod"):
                 rem = out[1] if op == "divmod" else out
                 checks += self._phase_checks(S, rem, remw, False, "remainder:")
+                if not S.symbolic and isinstance(rem, P.Phase):
+                    # concrete runs (replays, witness validation), at the property's accuracy: dividend = k*divisor + remainder
+                    # for an integer k to within 2^-52 cycles, and 0 <= remainder < divisor.  (Which k the float code picks when
+                    # the quotient is within rounding of an integer is not prescribed; that the pair is consistent to two-double
+                    # accuracy is.)
+                    ev = lambda t: Fraction(K.evalz(t, S.env, S.ufs))
+                    bad = [rem_identity_bad(ev(x), ev(y), ev(ri) + ev(rf)) for (x, y), (ri, rf) in zip(pairs, parts(S, rem))]
+                    checks.append(("remainder:two-double-accuracy", z3.BoolVal(any(bad))))
             return checks
         if op in ("sin", "cos"):
             # depends on the fractional part only: f(2*pi*frac)
@@ -310,7 +327,10 @@ class Arith(Unit):
         # pass runs (in exact arithmetic it never does); the real result must still agree with the exact one
         if self.op in ("floordiv", "mod", "divmod") and self.shape == ():
             return [{"pi0": 2**40, "pf0": Fraction(-1, 10**20), "w": Fraction(2)}, {"pi0": 3 * 2**30, "pf0": Fraction(-1, 10**18), "w": Fraction(3)},
-                    {"pi0": -(2**35), "pf0": Fraction(1, 10**19), "w": Fraction(4)}, {"pi0": 2**40, "pf0": Fraction(-1, 10**20), "w": Fraction(1)}]
+                    {"pi0": -(2**35), "pf0": Fraction(1, 10**19), "w": Fraction(4)}, {"pi0": 2**40, "pf0": Fraction(-1, 10**20), "w": Fraction(1)},
+                    # divisors for which quotient x divisor is inexact in one double
+                    {"pi0": 10**6, "pf0": Fraction(3, 10), "w": Fraction(7, 10)}, {"pi0": 123456789, "pf0": Fraction(1, 4), "w": Fraction(1, 10)},
+                    {"pi0": -(10**9) + 7, "pf0": Fraction(-41, 100), "w": Fraction(1, 3)}, {"pi0": 2**40 + 12345, "pf0": Fraction(1, 7), "w": Fraction(37, 10)}]
         if self.op in ("floordiv", "mod", "divmod", "sin", "cos"):
             return []
         # precision corner of the two-double chains: large counts, non-dyadic fractions, factors that are not powers of two.  The real
@@ -336,6 +356,14 @@ class Arith(Unit):
         def first(x):
             return x[1] if isinstance(x, tuple) else x
         so, co = first(out), first(cout)
+        if self.op in ("mod", "divmod") and isinstance(co, P.Phase) and co.shape == () and self.shape == ():
+            # the real remainder must be a two-double-accurate remainder of the operands actually used
+            ev = lambda t: Fraction(K.evalz(t, CS.env, CS.ufs))
+            pv, qv = args["pv"][0], args["qv"][0]
+            xv, yv = (ev(qv), ev(pv)) if self.reflected else (ev(pv), ev(qv))
+            c = co.view(np.ndarray)
+            if rem_identity_bad(xv, yv, Fraction(float(c["int"])) + Fraction(float(c["frac"]))):
+                return ["remainder of the real code is not accurate to 2^-52 cycles"]
         if type(so).__name__ != type(co).__name__:
             return [f"result type differs: {type(so).__name__} vs {type(co).__name__}"]
         if isinstance(so, P.Phase):
